@@ -1152,3 +1152,27 @@ def outcome_edges_of_call(cfg: CFG, fn: FunctionInfo, call: ast.Call, outcome: b
                 out += edges(n.id, pos)
         return out or None
     return None
+
+
+def guards_between(loop: ast.For, target: ast.AST) -> T.List[ast.AST]:
+    """The tests of the `if` statements (and conditional expressions) inside `loop` that enclose `target`."""
+    out: T.List[ast.AST] = []
+
+    def rec(stmts: T.List[ast.stmt], chain: T.List[ast.AST]) -> bool:
+        for st in stmts:
+            if any(x is target for x in ast.walk(st)):
+                if isinstance(st, ast.If):
+                    if any(x is target for b in st.body for x in ast.walk(b)) or any(x is target for b in st.orelse for x in ast.walk(b)):
+                        chain = chain + [st.test]
+                        out[:] = chain
+                        rec(st.body, chain) or rec(st.orelse, chain)
+                        return True
+                out[:] = chain
+                for fld in ("body", "orelse", "finalbody"):
+                    sub = getattr(st, fld, None)
+                    if isinstance(sub, list) and sub and isinstance(sub[0], ast.stmt) and rec(sub, chain):
+                        return True
+                return True
+        return False
+    rec(loop.body, [])
+    return out
